@@ -498,31 +498,61 @@ def control_desc(rec: Dict[str, Any], b: Builder) -> Dict[str, Any]:
     n[0] += 1
     return f'{prefix}{n[0]}txt'
 
-  def label(kind='label', tooltip=0, link=0, interactive=0, styled=0):
-    return {'k': kind, 'text': text('label'), 'tooltip': b.datum('str') if tooltip else None,
-            'link': 'http://example.com/x' if link else None, 'target': '_blank' if link else None,
-            'css_classes': ['c1', 'c2'] if styled else [], 'styles': dict(color='red', font_weight='bold') if styled else {},
-            'interactive': bool(interactive)}
+  taint = rec.get('taint', 'none')
+  used = [False]
+
+  def dat(field, plain):
+    """The hostile datum if `field` is the tainted str field of this record (first occurrence), else `plain`."""
+    if taint == field and not used[0]:
+      used[0] = True
+      return b.datum('ctl_' + field)
+    return plain
+
+  def common(d, own=True):
+    """id / css_classes / styles of the control itself (the record's top-level control when own)."""
+    if own:
+      d['id'] = dat('id', d.get('id'))
+      c = dat('css_class', None)
+      if c is not None:
+        d['css_classes'] = list(d.get('css_classes') or []) + [c]
+      v = dat('style_value', None)
+      if v is not None:
+        d['styles'] = dict(d.get('styles') or {}, color=v)
+    return d
+
+  def label(kind='label', tooltip=0, link=0, interactive=0, styled=0, own=False, text_field='text'):
+    tip = None
+    if tooltip:
+      # in the records that taint one specific field only that field is hostile
+      tip = b.datum('str') if taint == 'none' else dat('tooltip', text('tip'))
+    return common({'k': kind, 'text': dat(text_field, text('label')), 'tooltip': tip,
+                   'link': dat('link', 'http://example.com/x') if link else None,
+                   'target': dat('target', '_blank') if link else None, 'id': None,
+                   'css_classes': ['c1', 'c2'] if styled else [],
+                   'styles': dict(color='red', font_weight='bold') if styled else {},
+                   'interactive': bool(interactive)}, own)
 
   k, p1, p2, p3, p4 = rec['ctl'], rec['p1'], rec['p2'], rec['p3'], rec['p4']
   upd = rec.get('upd', 0)
   if k == 'tab':
     def tab(i):
       if p4 == 0:
-        content = {'k': 'text', 'text': text('content')}
+        content = {'k': 'text', 'text': dat('tab_content_text', text('content'))}
       elif p4 == 1:
-        content = {'k': 'value', 'datum': b.datum('str')}
+        content = {'k': 'value', 'datum': b.datum('str') if taint == 'none' else text('value')}
       else:
         content = label(tooltip=1)
-      return {'label': text('tab'), 'content': content, 'name': f'name{i}' if i % 2 else None}
-    d = {'k': 'tab', 'tabs': [tab(i) for i in range(p2)], 'selected': p3, 'pos': 'left' if p1 else 'top'}
+      tc = dat('tab_css', None)
+      return {'label': dat('tab_label', text('tab')), 'content': content,
+              'name': dat('tab_name', f'name{i}' if i % 2 else None), 'css_classes': [tc] if tc else []}
+    d = common({'k': 'tab', 'tabs': [tab(i) for i in range(p2)], 'selected': p3, 'pos': 'left' if p1 else 'top'})
     f = copy.deepcopy(d)
     if upd:
       f['tabs'].append(tab(7))                    # append
       f['tabs'].insert(0, tab(8))                 # insert before the first
       f['selected'] = len(f['tabs']) - 1          # select the last
   elif k in ('label', 'badge'):
-    d = label(k, p1, p2, p3, p4)
+    d = label(k, p1, p2, p3, p4, own=True)
     f = copy.deepcopy(d)
     if upd:
       f['text'] = text('newlabel')
@@ -533,8 +563,8 @@ def control_desc(rec: Dict[str, Any], b: Builder) -> Dict[str, Any]:
       f['styles'] = dict(f['styles'], color='blue')
       f['css_classes'] = [c for c in f['css_classes'] if c != 'c1'] + ['c3']
   elif k == 'labelgroup':
-    d = {'k': 'labelgroup', 'labels': [label(tooltip=i % 2, interactive=p3) for i in range(p1)],
-         'name': label(interactive=p3) if p2 else None, 'interactive': bool(p3)}
+    d = common({'k': 'labelgroup', 'labels': [label(tooltip=i % 2, interactive=p3) for i in range(p1)],
+                'name': label(interactive=p3, text_field='name_text') if p2 else None, 'interactive': bool(p3)})
     f = copy.deepcopy(d)
     if upd:
       for lb in f['labels'] + ([f['name']] if f['name'] else []):
@@ -542,13 +572,17 @@ def control_desc(rec: Dict[str, Any], b: Builder) -> Dict[str, Any]:
         if lb['tooltip'] is not None:
           lb['tooltip'] = b.datum('str')
   elif k == 'tooltip':
-    d = {'k': 'tooltip', 'html': bool(p1), 'content': text('tip') if p1 else b.datum('str'), 'interactive': bool(p2)}
+    d = common({'k': 'tooltip', 'html': bool(p1), 'interactive': bool(p2),
+                'content': text('tip') if p1 else (b.datum('str') if taint == 'none' else dat('content', text('tip')))})
     f = copy.deepcopy(d)
     if upd:
       f['content'] = text('newtip') if p1 else b.datum('str')
   elif k == 'progress':
-    d = {'k': 'progress', 'subs': [{'name': f'sub{i}', 'value': i + 1} for i in range(p1)],
-         'total': 10 if p2 else None, 'interactive': bool(p3)}
+    def sub(i):
+      sc = dat('sub_css', None)
+      return {'name': dat('sub_name', f'sub{i}'), 'value': i + 1, 'css_classes': [sc] if sc else []}
+    d = common({'k': 'progress', 'subs': [sub(i) for i in range(p1)], 'total': 10 if p2 else None,
+                'interactive': bool(p3)})
     f = copy.deepcopy(d)
     if upd:
       for i, sb in enumerate(f['subs']):
@@ -566,8 +600,20 @@ def construct_control(d: Dict[str, Any]):
   from pyglove.core.views.html import Html               # pylint: disable=import-outside-toplevel
   from pyglove.core.views.html import controls as C      # pylint: disable=import-outside-toplevel
 
+  def base_kw(x):
+    kw: Dict[str, Any] = {}
+    if x.get('id') is not None:
+      kw['id'] = x['id']
+    if x.get('css_classes'):
+      kw['css_classes'] = list(x['css_classes'])
+    if x.get('styles'):
+      kw['styles'] = dict(x['styles'])
+    return kw
+
   def label(x):
     kw: Dict[str, Any] = {}
+    if x.get('id') is not None:
+      kw['id'] = x['id']
     if x['tooltip'] is not None:
       kw['tooltip'] = x['tooltip']
     if x['link'] is not None:
@@ -583,22 +629,23 @@ def construct_control(d: Dict[str, Any]):
   def tab(t):
     c = t['content']
     content = c['text'] if c['k'] == 'text' else pg.Dict(v=c['datum']) if c['k'] == 'value' else label(c)
-    return C.Tab(t['label'], content, name=t['name'])
+    return C.Tab(t['label'], content, name=t['name'], css_classes=list(t.get('css_classes') or []))
 
   k = d['k']
   if k == 'tab':
-    return C.TabControl([tab(t) for t in d['tabs']], selected=d['selected'], tab_position=d['pos'])
+    return C.TabControl([tab(t) for t in d['tabs']], selected=d['selected'], tab_position=d['pos'], **base_kw(d))
   if k in ('label', 'badge'):
     return label(d)
   if k == 'labelgroup':
     return C.LabelGroup([label(x) for x in d['labels']], name=label(d['name']) if d['name'] else None,
-                        **({'interactive': True} if d['interactive'] else {}))
+                        **({'interactive': True} if d['interactive'] else {}), **base_kw(d))
   if k == 'tooltip':
     content = Html.element('b', [d['content']]) if d['html'] else d['content']
-    return C.Tooltip(content, for_element='.x', **({'interactive': True} if d['interactive'] else {}))
+    return C.Tooltip(content, for_element='.x', **({'interactive': True} if d['interactive'] else {}), **base_kw(d))
   if k == 'progress':
-    return C.ProgressBar([C.SubProgress(x['name'], value=x['value']) for x in d['subs']], total=d['total'],
-                         **({'interactive': True} if d['interactive'] else {}))
+    return C.ProgressBar([C.SubProgress(x['name'], value=x['value'], css_classes=list(x.get('css_classes') or []))
+                          for x in d['subs']], total=d['total'],
+                         **({'interactive': True} if d['interactive'] else {}), **base_kw(d))
   raise ValueError(k)
 
 
@@ -680,6 +727,8 @@ def expected_texts(d: Dict[str, Any]) -> List[str]:
       lab(x)
   elif k == 'tooltip':
     out.append(d['content'])
+  elif k == 'progress':
+    out.extend(x['name'] for x in d['subs'] if d['total'] is not None)     # shown in the progress tooltip
   return out
 
 
